@@ -153,6 +153,7 @@ func runScenarioConc(sc *Scenario) []*Result {
 	}
 	s.loop()
 	wg.Wait()
+	recheckReturned(results)
 	lastConc = concInfo{Switches: s.switches, Overlap: s.overlap, Hash: s.hash, Realised: s.realised}
 	return results
 }
